@@ -54,12 +54,34 @@ def mset(mask):
 
 def parse_job(line):
     ws = line.split()
-    d = {"req": "-", "write": "-", "check": "-", "opt": "-", "kind": "dyn"}
+    d = {"req": "-", "write": "-", "check": "-", "opt": "-", "kind": "dyn", "af": "-", "cf": "all"}
     for w in ws[2:]:
         k, v = w.split("=", 1)
         d[k] = v
     return {"req": mset(d["req"]), "write": mset(d["write"]), "check": mset(d["check"]),
-            "opt": mset(d["opt"]), "kind": d["kind"]}
+            "opt": mset(d["opt"]), "kind": d["kind"], "af": mset(d["af"]), "cf": d["cf"]}
+
+
+def arch_ok(J, mask):
+    """required components present and the job's constant archetype filter accepts"""
+    return J["req"] <= mset(mask) and not (J["af"] & mset(mask))
+
+
+def chunk_ok(J, k):
+    return J["cf"] == "all" or (k % 2 == 0) == (J["cf"] == "even")
+
+
+def close_mask(deps, mask):
+    """mask closed under the declared dependencies (transitive)"""
+    m = set(mset(mask))
+    changed = True
+    while changed:
+        changed = False
+        for (c, ds) in deps:
+            if c in m and not ds <= m:
+                m |= ds
+                changed = True
+    return norm("".join(m))
 
 
 def clean_lines(text):
@@ -135,6 +157,7 @@ class Oracle:
         self.emask = {}                                  # ordinal -> mask or None
         self.default = 1024
         self.fns = []
+        self.deps = []
         self.next_ord = 0
         self.c07 = []        # (op index, message)
         self.c11 = []
@@ -145,7 +168,10 @@ class Oracle:
         self.stats = {"runs": 0, "runs_work": 0, "runs_empty": 0, "runs_quiescent_checked": 0, "runs_quiescent_with_entities": 0,
                       "pending_checked": 0, "relocations": 0, "arch_created": 0, "rejections": 0,
                       "chunks_processed": 0, "partial_last_chunk_processed": 0, "writes": 0,
-                      "other_job_writes": 0, "self_write_runs": 0, "cs_seen": {}}
+                      "other_job_writes": 0, "self_write_runs": 0, "cs_seen": {},
+                      "body_runs": 0, "body_immediate_writes": 0, "body_deferred_changes": 0,
+                      "runs_with_chunk_filter": 0, "vetoed_chunks_skipped": 0, "runs_with_archetype_filter": 0,
+                      "archetypes_closed_by_dependency": 0}
 
     # -- structural bookkeeping
     def _get_arch(self, mask, cs_obs, i):
@@ -219,8 +245,13 @@ class Oracle:
         if kind == "chunkfn":
             self.fns.append((mset(ws[1]), int(ws[2]), int(ws[3])))
             return
+        if kind == "dep":
+            self.deps.append((ws[1], mset(ws[2])))
+            return
         if kind == "create":
-            mask = norm(ws[1])
+            mask = close_mask(self.deps, ws[1])
+            if mask != norm(ws[1]) and mask not in self.arch:
+                self.stats["archetypes_closed_by_dependency"] += 1
             if o[0] == "created":
                 e = int(o[1])
                 cs = int(o[2].split("=")[1])
@@ -241,13 +272,17 @@ class Oracle:
                 if old is None:
                     self.sanity.append((i, "structural change of a dead entity reported ok"))
                     return
-                new = norm(old.replace("-", "") + c) if kind == "assign" else norm(old.replace(c, ""))
-                cs = int(o[1].split("=")[1])
+                new = old.replace("-", "") + c if kind == "assign" else old.replace(c, "")
+                new = close_mask(self.deps, new)
+                if new == old:
+                    self.sanity.append((i, "structural change reported although the closed mask is unchanged"))
+                    return
+                cs = int(o[1].split("=")[1]) if len(o) > 1 else None
                 self._depart(e)
                 self._arrive(e, new, cs, i)
             elif o[0] == "error":
-                new = norm((old or "").replace("-", "") + c) if kind == "assign" else norm((old or "").replace(c, ""))
-                self._expect_rejection(new, out, i)
+                new = (old or "").replace("-", "") + c if kind == "assign" else (old or "").replace(c, "")
+                self._expect_rejection(close_mask(self.deps, new), out, i)
             return
         if kind == "destroy":
             e = int(ws[1])
@@ -274,10 +309,44 @@ class Oracle:
             return
         if kind == "run":
             self._run(i, int(ws[1]), out)
+            if len(ws) > 2 and ws[2] == "do":
+                self._body(i, op, out)
             return
         if kind == "dump":
             self._dump(i, out)
             return
+
+    def _body(self, i, op, out):
+        """the body of a run: immediate accesses first, then the deferred commands (applied at unlock)"""
+        acts = [a.strip() for a in op.split(" do ", 1)[1].split(";") if a.strip()]
+        m = re.search(r" do=(\S+)", out)
+        codes = m.group(1).split(";") if m else []
+        if len(codes) != len(acts):
+            self.sanity.append((i, "body results %r do not match the actions %r" % (codes, acts)))
+            return
+        if all(c == "-" for c in codes):
+            return                                  # nothing selected: the body never ran
+        self.stats["body_runs"] += 1
+        pairs = list(zip(acts, codes))
+        imm = [(a, c) for (a, c) in pairs if a.split()[0] in ("getmut", "dirty", "getconst")]
+        dfr = [(a, c) for (a, c) in pairs if a.split()[0] not in ("getmut", "dirty", "getconst")]
+        for (a, c) in imm + dfr:
+            if c == "a1":
+                synth = "access 1 ver=0"
+                if a.split()[0] != "getconst":
+                    self.stats["body_immediate_writes"] += 1
+            elif c == "a0":
+                synth = "access 0"
+            elif c.startswith("c"):
+                e, cs = c[1:].split(":")
+                synth = "created %s cs=%s" % (e, cs)
+                self.stats["body_deferred_changes"] += 1
+            elif c == "ok":
+                synth = "ok"
+                self.stats["body_deferred_changes"] += 1
+            else:
+                synth = "noop"
+            self.step(i, a, synth)
 
     def _run(self, i, j, out):
         m = re.match(r"run (\d+) n=(\d+) sel=(\d+) ents=(\S+) ", out)
@@ -301,8 +370,10 @@ class Oracle:
             mask = self.emask.get(e)
             if mask is None:
                 continue
-            if c in J["check"] and c in mask and J["req"] <= mset(mask):
-                must.add(e)
+            if c in J["check"] and c in mask and arch_ok(J, mask):
+                a = self.arch[mask]
+                if chunk_ok(J, a["ents"].index(e) // a["cs"]):
+                    must.add(e)
         st["pending_checked"] += len(must)
         missed = sorted(must - Pset)
         if missed:
@@ -312,27 +383,39 @@ class Oracle:
         chunks = set()
         any_touched = False
         all_vf = True
+        if J["cf"] != "all":
+            st["runs_with_chunk_filter"] += 1
+        if J["af"]:
+            st["runs_with_archetype_filter"] += 1
         for mask, a in self.arch.items():
-            if not a["ents"] or not (J["req"] <= mset(mask)):
+            if not a["ents"] or not arch_ok(J, mask):
                 continue
             vf = bool(J["check"] & mset(mask))
             all_vf = all_vf and vf
-            if any((mask, k) in self.touched[j] for k in range((len(a["ents"]) - 1) // a["cs"] + 1)):
-                any_touched = True
+            for k in range((len(a["ents"]) - 1) // a["cs"] + 1):
+                if not chunk_ok(J, k):
+                    st["vetoed_chunks_skipped"] += 1
+                elif (mask, k) in self.touched[j]:
+                    any_touched = True
         if all_vf and not any_touched:
             st["runs_quiescent_checked"] += 1
-            if any(a["ents"] and J["req"] <= mset(mask) for mask, a in self.arch.items()):
+            if any(a["ents"] and arch_ok(J, mask) for mask, a in self.arch.items()):
                 st["runs_quiescent_with_entities"] += 1
         for e in Pset:
             mask = self.emask.get(e)
             if mask is None:
                 continue
             a = self.arch[mask]
-            if not (J["req"] <= mset(mask)):
-                self.c11.append((i, "job %d processed entity %d of a non-matching archetype %s" % (j, e, mask)))
+            if not arch_ok(J, mask):
+                self.c11.append((i, "job %d processed entity %d of archetype %s, which does not match it or is vetoed "
+                                    "by its archetype filter" % (j, e, mask)))
                 continue
             k = a["ents"].index(e) // a["cs"]
             chunks.add((mask, k))
+            if not chunk_ok(J, k):
+                self.c11.append((i, "job %d (chunk filter %s) processed entity %d in version chunk %d of archetype %s, "
+                                    "which its own chunk filter vetoes" % (j, J["cf"], e, k, mask)))
+                continue
             if J["check"] and (mask, k) not in self.touched[j]:
                 msg = ("job %d (req=%s check=%s) processed entity %d in version chunk %d of archetype %s "
                        "(chunk size %d) in which nothing was written, arrived or departed since it "
@@ -549,7 +632,14 @@ def gen_job(rng, j, vf_bias=0.7):
         check = "".join(c for c in req if rng.random() < 0.6) or req[0]        # non-empty subset of req
     else:
         check = "-"                                                            # unfiltered job
-    return "job %d req=%s write=%s check=%s opt=%s kind=%s" % (j, req, write, check, opt, kind)
+    extra = ""
+    if rng.random() < 0.18:
+        extra += " cf=%s" % rng.choice(["even", "odd"])                         # constant chunk filter
+    if rng.random() < 0.10:
+        deny = [c for c in COMPS if c not in req]
+        if deny:
+            extra += " af=%s" % rng.choice(deny)                                # constant archetype filter
+    return "job %d req=%s write=%s check=%s opt=%s kind=%s%s" % (j, req, write, check, opt, kind, extra)
 
 
 def rand_bounds(rng, top):
@@ -576,10 +666,77 @@ def gen_chunk_cfg(rng, contradictory_p=0.15):
     return lines
 
 
+def gen_consistent_chunk_cfg(rng):
+    """every function's interval contains one pivot: no archetype is ever rejected (a rejection while the
+    command buffer is applied inside unlock() would terminate the process)"""
+    pivot = rng.randint(1, 9)
+    lines = ["chunkdefault %d" % rng.randint(1, 9)]
+    for _ in range(rng.choice([0, 1, 1, 2, 3])):
+        m = rand_mask(rng, rng.random() < 0.85, COMPS, 0.35)
+        r = rng.random()
+        a = rng.randint(1, pivot)
+        b = rng.randint(pivot, 9)
+        if r < 0.2:
+            b = 0
+        elif r < 0.3:
+            a = 0
+        lines.append("chunkfn %s %d %d" % (m, a, b))
+    return lines
+
+
+def gen_deps(rng):
+    lines = []
+    for _ in range(rng.choice([1, 1, 2, 3])):
+        c = rng.choice(COMPS)
+        ds = rand_mask(rng, True, COMPS.replace(c, ""), 0.4)
+        lines.append("dep %s %s" % (c, ds))
+    return lines
+
+
+def gen_body(rng, alive):
+    """actions of a job body: immediate accesses anywhere; at most one deferred command per entity"""
+    acts = []
+    used = set()
+    for _ in range(rng.choice([1, 1, 2, 3])):
+        r = rng.random()
+        ids = sorted(alive)
+        if r < 0.45 and ids:
+            e = rng.choice(ids)
+            c = rng.choice(sorted(alive[e])) if alive[e] and rng.random() < 0.9 else rng.choice(COMPS)
+            a = "%s %d %s" % (rng.choice(["getmut", "getmut", "dirty", "getconst"]), e, c)
+        elif r < 0.6:
+            a = "create %s" % rand_mask(rng, True, COMPS, 0.45)
+        else:
+            free = [e for e in ids if e not in used]
+            if not free:
+                continue
+            e = rng.choice(free)
+            used.add(e)
+            k = rng.random()
+            missing = [c for c in COMPS if c not in alive[e]]
+            if k < 0.35 and missing:
+                a = "assign %d %s" % (e, rng.choice(missing))
+            elif k < 0.7 and alive[e]:
+                a = "remove %d %s" % (e, rng.choice(sorted(alive[e])))
+            else:
+                a = "destroy %d" % e
+        if a not in acts:
+            acts.append(a)
+    return acts
+
+
 def gen_history(rng, length, njobs=None, late_jobs=True):
-    """structured random history; a light reference state keeps the ops mostly valid"""
+    """structured random history; a light reference state keeps the ops mostly valid.
+    Three flavours: plain (chunk configurations incl. contradictory ones), with dependencies, and with job
+    bodies that modify the world (never-contradictory chunk configuration, no dependencies)."""
     njobs = njobs or rng.randint(2, 4)
-    lines = gen_chunk_cfg(rng)
+    flavour = rng.choice(["plain", "plain", "deps", "body", "body"])
+    if flavour == "body":
+        lines = gen_consistent_chunk_cfg(rng)
+    else:
+        lines = gen_chunk_cfg(rng)
+    if flavour == "deps":
+        lines = gen_deps(rng) + lines
     declared = 0
     first = rng.randint(1, njobs) if late_jobs else njobs
     for _ in range(first):
@@ -606,7 +763,26 @@ def gen_history(rng, length, njobs=None, late_jobs=True):
             declared += 1
             continue
         if r < 0.22:
-            emit("run %d" % rng.randrange(declared))
+            if flavour == "body" and rng.random() < 0.6:
+                acts = gen_body(rng, alive)
+                emit("run %d do %s" % (rng.randrange(declared), " ; ".join(acts)) if acts
+                     else "run %d" % rng.randrange(declared))
+                # the reference follows the body as if it ran (it may not have: harmless drift)
+                for a in acts:
+                    w = a.split()
+                    if w[0] == "create":
+                        alive[nxt] = set(w[1])
+                        nxt += 1
+                    elif w[0] == "assign" and int(w[1]) in alive:
+                        alive[int(w[1])].add(w[2])
+                    elif w[0] == "remove" and int(w[1]) in alive:
+                        alive[int(w[1])].discard(w[2])
+                    elif w[0] == "destroy":
+                        alive.pop(int(w[1]), None)
+            else:
+                emit("run %d" % rng.randrange(declared))
+        elif flavour == "deps" and r < 0.235:
+            emit(gen_deps(rng)[0])
         elif r < 0.32:
             emit("update")
         elif r < 0.50 and alive:
@@ -663,15 +839,17 @@ def gen_history(rng, length, njobs=None, late_jobs=True):
 
 def gen_frame_orderings(rng, depth):
     """exhaustive small scope: every sequence of `depth` operations from a small alphabet after a fixed
-    prefix (job 0 checks A; job 1 writes A; job 2 checks+writes A; 3 entities AB + 2 entities A, chunk size 2)"""
+    prefix (job 0 checks A; job 1 writes A with a chunk filter; job 2 checks+writes A; 3 entities AB + 2
+    entities A, chunk size 2); two of the operations are runs whose body modifies the world"""
     prefix = ["chunkdefault 2",
               "job 0 req=A write=- check=A kind=tpl",
-              "job 1 req=AB write=A check=- kind=tpl",
+              "job 1 req=AB write=A check=- kind=tpl cf=odd",
               "job 2 req=A write=A check=A kind=dyn",
               "create AB", "create AB", "create AB", "create A", "create A",
               "update", "run 0", "run 2"]
     alphabet = ["update", "run 0", "run 1", "run 2", "getmut 0 A", "dirty 4 A", "getmut 1 B", "getconst 2 A",
-                "destroy 0", "remove 1 B", "assign 3 B", "create A"]
+                "destroy 0", "remove 1 B", "assign 3 B", "create A",
+                "run 0 do getmut 1 A ; create A", "run 2 do dirty 3 A ; destroy 2"]
     out = []
 
     def rec(seq):
@@ -692,11 +870,21 @@ def gen_chunk_configs(rng, n):
         all_masks.append("".join(c for i, c in enumerate(COMPS) if k >> i & 1))
     for _ in range(n):
         lines = ["chunkdefault %d" % rng.randint(1, 12)]
+        deps = []
+        if rng.random() < 0.5:                      # dependencies: the archetype's mask is the CLOSED mask
+            deps = gen_deps(rng)
+            lines += deps
         for _ in range(rng.randint(0, 5)):
-            m = rand_mask(rng, rng.random() < 0.9, COMPS, 0.35)
+            if deps and rng.random() < 0.5:         # a function on a dependent component only
+                m = rng.choice(deps).split()[2]
+                m = rng.choice(m) if m != "-" else "A"
+            else:
+                m = rand_mask(rng, rng.random() < 0.9, COMPS, 0.35)
             a, b = rand_bounds(rng, 12)
             lines.append("chunkfn %s %d %d" % (m, a, b))
         masks = rng.sample(all_masks, rng.randint(3, 15))
+        if deps:                                    # make sure masters are requested alone
+            masks = [d.split()[1] for d in deps] + masks
         for idx, m in enumerate(masks):
             if idx and rng.random() < 0.2:
                 lines.append("chunkdefault %d" % rng.randint(1, 12))
@@ -721,7 +909,8 @@ def gen_quiescence(rng, n):
                                                              rng.choice(["tpl", "dyn"])),
                  "job 1 req=%s write=%s check=%s kind=dyn" % (rng.choice(["C", "AC", "ABC"]), rng.choice(["C", "-"]),
                                                               rng.choice(["-", "C"])),
-                 "job 2 req=AB write=- check=- kind=tpl"]
+                 "job 2 req=AB write=%s check=- kind=tpl%s" % (rng.choice(["-", "-", "B"]),
+                                                               rng.choice(["", "", " cf=even", " cf=odd"]))]
         for _ in range(rng.randint(1, 11)):
             lines.append("create %s" % rng.choice(["AB", "ABC", "ABCD", "A", "C"]))
         lines += ["run 0", "run 1"]
